@@ -136,7 +136,7 @@ Section Generic.
   Lemma enc_tail_iter k off s : k <= 7 -> enc_tail bs E k (off, s) = enc_iter k off s.
   Proof.
     intros Hk. unfold enc_tail, enc_case.
-    do 8 (destruct k as [|k]; [cbn [Nat.leb fst snd enc_iter]; reflexivity|]). lia.
+    do 8 (destruct k as [|k]; [cbn [Nat.leb enc_iter]; reflexivity|]). lia.
   Qed.
 
   (* (3) the block-level recursion: ciphertext blocks and the keystream block left in tbl *)
